@@ -233,6 +233,9 @@ pub fn check_call(rep: &mut Report, ctx: &str, wire: &WireRef, method: &str, par
         }
     }
     rep.count("calls_ok");
+    if rep.evaluations % 11 == 5 {
+        rep.sample(8, || json!({"call": ctx, "captured": vnet::json::show(&bytes)}));
+    }
     true
 }
 
